@@ -22,6 +22,10 @@ package backup
 //   round    one upload round with a generated storage fault (none, CurrentID
 //            error, Upload error before / in the middle of / after reading)
 //   cround   an upload round while a writer goroutine inserts rows
+//   gateround  a write, then an upload round while a (public) binary backup
+//            into a blocked writer holds the snapshot gate for longer than the
+//            provider's whole retry budget: the round must fail or upload a
+//            complete backup
 //
 // Oracle (independent model: the same SQL applied to a raw-driver in-memory
 // database; load/boot replace the model by the loaded content):
@@ -197,6 +201,20 @@ func (c *c37Storage) Upload(ctx context.Context, r io.Reader, id string) error {
 	return nil
 }
 
+// c37BlockingWriter blocks in its first Write until release is closed.
+type c37BlockingWriter struct {
+	held, release chan struct{}
+	once          sync.Once
+}
+
+func (w *c37BlockingWriter) Write(p []byte) (int, error) {
+	w.once.Do(func() {
+		close(w.held)
+		<-w.release
+	})
+	return len(p), nil
+}
+
 // ---- model --------------------------------------------------------------------
 
 type c37Model struct{ db *sql.DB }
@@ -239,11 +257,11 @@ func (m *c37Model) replace(stmts []string) error {
 // ---- operations -----------------------------------------------------------------
 
 type c37Op struct {
-	Kind   string   // write, request, nochange-write, failing-write, load, boot, query, noop, snapshot, restart, round, cround
-	Stmts  []string // write / request / load / boot content
-	Tx     bool
-	Fault  c37Fault
-	NConc  int // cround: concurrent inserts attempted
+	Kind  string   // write, request, nochange-write, failing-write, load, boot, query, noop, snapshot, restart, round, cround
+	Stmts []string // write / request / load / boot content
+	Tx    bool
+	Fault c37Fault
+	NConc int // cround: concurrent inserts attempted
 }
 
 func (o c37Op) String() string {
@@ -324,6 +342,12 @@ func c37GenOps(rt *rapid.T) []c37Op {
 		}
 		ops = append(ops, o)
 	}
+	// now and then: a round during which another backup holds the snapshot gate
+	// for longer than the provider's whole retry budget (costs ~5.5 s)
+	if rapid.IntRange(0, 5).Draw(rt, "gateRound") == 0 {
+		pos := rapid.IntRange(0, len(ops)).Draw(rt, "gateRoundPos")
+		ops = append(ops[:pos], append([]c37Op{{Kind: "gateround"}}, ops[pos:]...)...)
+	}
 	// always finish with two clean rounds so that every history is judged
 	ops = append(ops, c37Op{Kind: "round"}, c37Op{Kind: "round"})
 	return ops
@@ -370,7 +394,7 @@ const (
 
 func TestVerif_C37_Uploads(t *testing.T) {
 	rec := vstat.New(t, "C37", "uploads",
-		"operation sequences (4..14 ops quick, ..30 thorough, + 2 closing rounds) over real Store+Provider+Uploader with a fake storage: writes (single/multi, tx/non-tx, unified request), ineffective and failing writes, load, boot, query/noop/snapshot, restart, upload rounds with faults {none, CurrentID error, Upload error before/mid/after read}, rounds with a concurrent writer; provider vacuum x compress generated; non-trivial = at least one round judged must-upload and one judged must-not-upload or faulted; distinct by the op sequence")
+		"operation sequences (4..14 ops quick, ..30 thorough, + 2 closing rounds) over real Store+Provider+Uploader with a fake storage: writes (single/multi, tx/non-tx, unified request), ineffective and failing writes, load, boot, query/noop/snapshot, restart, upload rounds with faults {none, CurrentID error, Upload error before/mid/after read}, rounds with a concurrent writer, now and then a round while another backup holds the snapshot gate beyond the retry budget; provider vacuum x compress generated; non-trivial = at least one round judged must-upload and one judged must-not-upload or faulted; distinct by the op sequence")
 	rapid.Check(t, func(rt *rapid.T) {
 		vacuum := rapid.Bool().Draw(rt, "vacuum")
 		compress := rapid.Bool().Draw(rt, "compress")
@@ -412,10 +436,10 @@ func TestVerif_C37_Uploads(t *testing.T) {
 		}
 
 		// obligation tracking
-		changed := true        // effective change since last successful upload
+		changed := true // effective change since last successful upload
 		lastChangeKind := "write"
-		writeOps := true       // any write-type op since last successful upload
-		restarted := false     // restart since last successful upload
+		writeOps := true   // any write-type op since last successful upload
+		restarted := false // restart since last successful upload
 		var trace []string
 		nMust, nMustNot, nFaulted := 0, 0, 0
 		croundNo := 0
@@ -430,6 +454,39 @@ func TestVerif_C37_Uploads(t *testing.T) {
 		for _, o := range ops {
 			trace = append(trace, o.String())
 			rec.Label("op:" + o.Kind)
+			afterUpload := func() {}
+			if o.Kind == "gateround" {
+				held := make(chan struct{})
+				release := make(chan struct{})
+				hdone := make(chan struct{})
+				bw := &c37BlockingWriter{held: held, release: release}
+				go func() {
+					defer close(hdone)
+					n.s.Backup(ctx, &proto.BackupRequest{Format: proto.BackupRequest_BACKUP_REQUEST_FORMAT_BINARY}, bw)
+					bw.once.Do(func() { close(held) })
+				}()
+				select {
+				case <-held:
+				case <-time.After(60 * time.Second):
+					close(release)
+					<-hdone
+					rt.Skip("gate holder did not start")
+				}
+				var once sync.Once
+				afterUpload = func() { once.Do(func() { close(release); <-hdone }) }
+				// the database changes while the gate is held
+				g := fmt.Sprintf("INSERT INTO t(v) VALUES('g%d')", len(trace))
+				if _, _, err := n.s.Execute(ctx, c37ExecReq([]string{g}, false)); err != nil {
+					afterUpload()
+					rt.Skip("execute failed")
+				}
+				if err := model.exec(g); err != nil {
+					t.Fatalf("harness: %v", err)
+				}
+				changed, lastChangeKind, writeOps = true, "write", true
+				o.Kind = "round"
+				rec.Label("round-with-gate-held")
+			}
 			before := model.dump()
 			switch o.Kind {
 			case "write", "nochange-write", "failing-write":
@@ -580,6 +637,7 @@ func TestVerif_C37_Uploads(t *testing.T) {
 				}
 
 				uerr := up.upload(ctx)
+				afterUpload()
 
 				close(stop)
 				<-wdone
